@@ -518,8 +518,8 @@ fn builtin_round(args: Vec<Rc<Object>>) -> Result<Rc<Object>, String> {
     match args[0].as_ref() {
         Object::Float(f) => {
             if let Object::Integer(n) = args[1].as_ref() {
-                let multiplier = 10i64.pow(*n as u32);
-                let rounded = (f * multiplier as f64).round() / multiplier as f64;
+                let multiplier = 10f64.powi((*n).clamp(-400, 400) as i32);
+                let rounded = (f * multiplier).round() / multiplier;
                 Ok(Rc::new(Object::Float(rounded)))
             } else {
                 Err(String::from("second argument should be an integer"))
